@@ -33,6 +33,11 @@ type (
 		Name string
 	}
 	CIndex struct{ X, I CExpr }
+	CMeth  struct {
+		X    CExpr
+		Name string
+		Args []CExpr
+	}
 	CQuant struct {
 		Forall bool
 		Vars   []CVar
@@ -190,7 +195,24 @@ func (p *cparser) postfix(e CExpr) CExpr {
 			if t.kind != "id" {
 				p.fail("expected field name")
 			}
-			e = CField{e, t.s}
+			if p.isOp("(") {
+				p.pos++
+				var args []CExpr
+				if !p.isOp(")") {
+					for {
+						args = append(args, p.expr(0))
+						if p.isOp(",") {
+							p.pos++
+							continue
+						}
+						break
+					}
+				}
+				p.expect(")")
+				e = CMeth{e, t.s, args}
+			} else {
+				e = CField{e, t.s}
+			}
 		case p.isOp("["):
 			p.pos++
 			i := p.expr(0)
